@@ -73,7 +73,12 @@ def r08a(ctx):
                 e = a.flow.rvalue(d[3], 0)
                 if e[0] == 'agg' and 'Range' in e[2] and flow.mentions(e, lambda z: z[0] == 'field' and z[2] == 'num_chunks'):
                     okn = True
-    ctx.check(okn and bool(nxt), 'R08a', fn, 'loop bound', a.loc(lp[0]), 'the loop iterates 0..footer.num_chunks')
+    okn = okn and bool(nxt)
+    if not okn:
+        # `let mut idx = 0; while idx < num_chunks { ..; idx += 1 }`
+        from . import loops as L
+        okn = L.counting_loop(a, lp, lambda y: flow.mentions(y, lambda z: z[0] == 'field' and z[2] == 'num_chunks'), strict=False) is not None
+    ctx.check(okn, 'R08a', fn, 'loop bound', a.loc(lp[0]), 'the loop iterates 0..footer.num_chunks')
     # acceptance
     acc = [(b, si, e) for (b, si, k, e) in a.ret_sites() if k == 'ok' and e[3][0][1][0] == 'agg' and e[3][0][1][2].endswith('Option::Some')]
     if not ctx.check(len(acc) == 1, 'R08a', fn, 'Ok(Some)', '-', 'one accepting return'):
@@ -162,15 +167,45 @@ def r08b(ctx):
     for nm, ed in checks:
         ok = bool(ed) and bool(first) and all(ab not in a.cfg.reach([t], cut_edges=ed) or not _reaches_check(a, t, ed) for t in first) and any(_reaches_check(a, t, ed) for t in first)
         ctx.check(ok, 'R08b', fn, nm, a.loc(ab), 'with a parsed footer, acceptance is dominated by ' + nm, 'with a parsed footer the validator can accept without ' + nm)
-    # per-element loops
-    e_el = edges_where(a, lambda op, l, r: op == 'Eq' and l[0] == 'field' and l[2] == '0' and 'zip' in flow.show(l) and 'chunk_hashes' in flow.show(l) and r[0] == 'field' and r[2] == 'hash')
-    e_up = edges_where(a, lambda op, l, r: op == 'Eq' and l[0] == 'field' and l[2] == '0' and 'unpacked_chunk_offsets' in flow.show(l) and r[0] == 'local')
-    for nm, ed in (('per-element footer hash == computed hash', e_el), ('per-element unpacked offset == prefix sum of computed lengths', e_up)):
+    # per-element comparisons: an explicit loop (zip or indexed) whose every completed iteration passed the equal edge, or
+    # `zip(..).any(|(a, b)| a != b)` / `.all(|(a, b)| a == b)` with acceptance behind the matching edge of its result
+    ment = lambda e, fld: flow.mentions(e, lambda y: y[0] == 'field' and y[2] == fld)
+    e_el = edges_where(a, lambda op, l, r: op == 'Eq' and l[0] in ('field', 'index') and ment(l, 'chunk_hashes') and r[0] == 'field' and r[2] == 'hash')
+    e_up = edges_where(a, lambda op, l, r: op == 'Eq' and l[0] in ('field', 'index') and ment(l, 'unpacked_chunk_offsets') and r[0] == 'local')
+
+    def quantifier_form(fld, rhs_pred):
+        """acceptance is behind `!zip(footer.fld, computed).any(|(x, y)| x != y..)` (or `.all(.. == ..)`)"""
+        for qn, want_op, pol in (('any', 'Ne', False), ('all', 'Eq', True)):
+            for c in a.calls('core::iter::traits::iterator::Iterator::' + qn):
+                recv, clo = a.arg(c, 0), a.arg(c, 1)
+                if not (ment(recv, fld) and 'zip' in flow.show(recv)) or clo[0] != 'agg' or clo[1] != 'closure':
+                    continue
+                cb_ = ctx.F.bodies.get(clo[2])
+                if cb_ is None:
+                    continue
+                ac = an(cb_)
+                rr = [e_ for (_, _, _, e_) in ac.ret_sites()]
+                cmp_ = __import__('xl.core', fromlist=['as_comparison']).as_comparison(rr[0]) if len(rr) == 1 else None
+                if not cmp_ or cmp_[0] != want_op:
+                    continue
+                sides = (cmp_[1], cmp_[2])
+                if not (any(flow.mentions(z, lambda y: y[0] == 'param') for z in sides) and any(rhs_pred(z) for z in sides)):
+                    continue
+                te, fe = __import__('xl.core', fromlist=['bool_edges']).bool_edges(a, lambda z: a.rooted_at(z, c))
+                ed_ = te if pol else fe
+                if ed_ and a.cfg.must_pass(ab, via_edges=ed_, start=c):
+                    return ed_
+        return None
+    for nm, ed, fld, rp in (('per-element footer hash == computed hash', e_el, 'chunk_hashes', lambda z: z[0] == 'field' and z[2] == 'hash'),
+                            ('per-element unpacked offset == prefix sum of computed lengths', e_up, 'unpacked_chunk_offsets', lambda z: z[0] in ('local', 'upvar'))):
         okl = False
         if ed:
             lpx = c05.loop_of(a, ed[0][0])
             okl = lpx is not None and c05.latches_guarded(a, lpx, ed)
-        ctx.check(okl, 'R08b', fn, nm, a.loc(ed[0][0]) if ed else '-', 'each compared element passed ' + nm, 'the footer comparison loop can continue past an element without ' + nm)
+        site = a.loc(ed[0][0]) if ed else '-'
+        if not okl:
+            okl = quantifier_form(fld, rp) is not None
+        ctx.check(okl, 'R08b', fn, nm, site, 'each compared element passed ' + nm, 'the footer comparison loop can continue past an element without ' + nm)
     # prefix sum accumulates the computed length of the zipped element
     from . import paths
     eff = paths.collect_effects(a, a.cfg.reach0, lambda k: k[0] if len(k) == 1 else None)
@@ -268,8 +303,18 @@ def r08e(ctx):
     # the sanitisers themselves
     pa = an(F.body(CO + 'prealloc_num_chunks'))
     rs = [e for (_, _, _, e) in pa.ret_sites()]
-    ok = len(rs) == 1 and rs[0][0] == 'call' and sg(rs[0][1]).endswith('Ord::min') and rs[0][2][0] == ('param', 1, 'declared_size') and flow.const_eval(rs[0][2][1]) is not None
-    ctx.check(ok, 'R08e', pa.path, 'min', '-', 'prealloc_num_chunks = min(declared, constant %s)' % (flow.const_eval(rs[0][2][1]) if ok else '?'))
+    isp = lambda z: z[0] == 'param' and z[1] == 1
+    ok = len(rs) == 1 and rs[0][0] == 'call' and sg(rs[0][1]).endswith('min') and len(rs[0][2]) == 2 and isp(rs[0][2][0]) and flow.const_eval(rs[0][2][1]) is not None
+    cap = flow.const_eval(rs[0][2][1]) if ok else None
+    if not ok:
+        # `if declared > CAP { CAP } else { declared }`: every returned value is the cap, or the parameter on an edge parameter <= cap
+        srcs = [x for (rb, rsi, k, e) in pa.ret_sites() for x in pa.flow.sources(e, (rb, rsi))]
+        caps = {flow.const_eval(e) for (_, _, e) in srcs if not isp(e)}
+        if len(caps) == 1 and None not in caps and any(isp(e) for (_, _, e) in srcs):
+            cap = next(iter(caps))
+            le = edges_where(pa, lambda op, l, r: op in ('Le', 'Lt') and isp(l) and flow.const_eval(r) == cap)
+            ok = bool(le) and all(sb is not None and pa.cfg.must_pass(sb, via_edges=le) for (sb, _, e) in srcs if isp(e))
+    ctx.check(ok, 'R08e', pa.path, 'min', '-', 'prealloc_num_chunks = min(declared, constant %s)' % (cap if ok else '?'))
     for nm in ('cas_object::cas_chunk_format::parse_chunk_header', 'cas_object::cas_chunk_format::deserialize_async::deserialize_chunk_header::{closure#0}'):
         h = an(F.body(nm))
         vs = h.calls('cas_object::cas_chunk_format::CASChunkHeader::validate')
